@@ -52,7 +52,7 @@ fn main() {
                 "tables" => tables::compare(&mut rec),
                 "octet" => e1::octet(&mut rec, &mut rng, thorough),
                 "kernels" => e1::kernels(&mut rec, &mut rng, thorough, outdir),
-                "slab" => e1::slab(&mut rec, &mut rng, thorough),
+                "slab" => e1::slab(&mut rec, &mut rng, thorough, outdir),
                 "cm" => e3::cm(&mut rec, &mut rng, thorough),
                 "enc" => e3::enc(&mut rec, &mut rng, thorough),
                 "repair" => e3::repair(&mut rec, &mut rng, thorough),
@@ -63,6 +63,7 @@ fn main() {
                 "overhead" => e3::overhead(&mut rec, &mut rng, thorough),
                 "configs" => e3::configs(&mut rec, &mut rng, thorough, outdir, seed),
                 "fastpath" => e3::fastpath(&mut rec, &mut rng, thorough),
+                "solver" => e3::solver(&mut rec, &mut rng, thorough),
                 "plan" => e3::plan(&mut rec, &mut rng, thorough),
                 "linear" => e3::linear(&mut rec, &mut rng, thorough),
                 "matrices" => e4::matrices(&mut rec, &mut rng, thorough),
